@@ -41,6 +41,18 @@ use crate::{
     kbucket::{Key, KeyBytes},
 };
 
+/// Verification hook: makes the peer iterators reachable from `crate::verif`.
+#[cfg(libp2p_verif)]
+pub(crate) mod verif_peers {
+    pub use super::peers::{
+        PeersIterState,
+        closest::{ClosestPeersIter, ClosestPeersIterConfig},
+    };
+    pub(crate) use super::peers::{
+        closest::disjoint::ClosestDisjointPeersIter, fixed::FixedPeersIter,
+    };
+}
+
 /// A `QueryPool` provides an aggregate state machine for driving `Query`s to completion.
 ///
 /// Internally, a `Query` is in turn driven by an underlying `QueryPeerIter`
